@@ -126,7 +126,8 @@ class C01(Prop):
 
     def finding_key(self, case, v):
         big = max(exprs.max_abs_argument(case['tree'], float(xv), ('tanh',)) for xv in case['x'])
-        return {'tanh_arg_over_300': bool(big > 300),
+        tiny = min(exprs.min_abs_pow_base(case['tree'], float(xv)) for xv in case['x'])
+        return {'tanh_arg_over_300': bool(big > 300), 'pow_base_below_1e-15': bool(tiny < 1e-15),
                 'clause': v.clause, 'method': case['method'], 'n': case['n'],
                 'ops': sorted(exprs.ops(case['tree'])), 'complex_f': case.get('wrap') is not None,
                 'step_kind': case['step']['kind'], 'exception': v.details.get('exception'),
